@@ -7,8 +7,15 @@ const Prelude = `package main
 import frt
 import slice
 import strings
+import dict
+import buf
 
 type R = {A: int; B: string}
+
+type G<T> = {V: T; Vs: []T}
+
+type Tq = {Fb: Tr; Fn: int}
+and Tr = {Fa: int}
 
 type U =
   | I of int
@@ -52,6 +59,10 @@ let pair a b =
 let gv = 40 + 2
 
 let zzUseImports () =
+  let d = dict.New<string, int> ()
+  dict.Add d "k" 1
+  let b = buf.New ()
+  buf.Write b "x"
   [1] |> slice.Length |> frt.Sprintf1 "%d" |> strings.Length
 
 `
